@@ -227,6 +227,10 @@ class MiniEval:
                 mfi = P.find_method(self.cls.name, e.attr)
                 if mfi is not None and not any(isinstance(x, ast.Name) and x.id in ("property", "staticmethod", "classmethod") for x in mfi.node.decorator_list):
                     return _Meth(e.attr)
+                if mfi is not None and any(isinstance(x, ast.Name) and x.id == "property" for x in mfi.node.decorator_list):
+                    # a read-only property of the same object: its getter, evaluated under the same field values
+                    oc = mfi.cls or self.cls
+                    return MiniEval(P, oc.module, oc, self.attrs).call_function(mfi.node, {"self": None})
             if d and d.startswith("self.") and d.count(".") == 1 and self.cls is not None:
                 got = P.class_attr(self.cls.name, e.attr)
                 if got:
@@ -287,6 +291,8 @@ class MiniEval:
                     ok = left in self.iterate(right)
                 elif isinstance(op, ast.NotIn):
                     ok = left not in self.iterate(right)
+                elif isinstance(op, (ast.Gt, ast.GtE, ast.Lt, ast.LtE)) and isinstance(left, int) and isinstance(right, int):
+                    ok = {ast.Gt: left > right, ast.GtE: left >= right, ast.Lt: left < right, ast.LtE: left <= right}[type(op)]
                 else:
                     raise AnalysisError("minieval: unsupported comparison")
                 if not ok:
